@@ -312,6 +312,14 @@ class Interp:
                     cur = self._field(store, cur, e["i"])
             elif k == "downcast":
                 pass
+            elif k == "index":
+                # a[i] with i a constant on this path and a a fixed-size array: the element's own place
+                idx = self.sget(store, frame, e["local"])
+                base = self.read_ref(store, cur) if isinstance(cur, Ref) else cur
+                if not (isinstance(idx, Const) and isinstance(idx.v, int) and not isinstance(idx.v, bool)
+                        and isinstance(base, Agg) and base.kind == "array" and 0 <= idx.v < len(base.fields)):
+                    return TOP
+                cur = Ref(cur.frame, cur.local, cur.proj + (idx.v,)) if isinstance(cur, Ref) else base.field(idx.v)
             elif k == "other" and (e.get("dbg", "").startswith("ConstantIndex") or e.get("dbg", "").startswith("Subslice")):
                 # slice patterns: `[first, rest @ ..]`
                 d = e["dbg"]
@@ -442,6 +450,12 @@ class Interp:
             if kind["k"] == "closure":
                 return Agg("closure", kind["path"], None, None, ops)
             return Agg(kind["k"], None, None, None, ops)
+        if k == "repeat":
+            # [x; N]: an array of N copies (small N only; a large buffer stays unknown)
+            if rv["n"] <= 64:
+                v = self.operand(store, frame, rv["op"])
+                return Agg("array", None, None, None, [v] * rv["n"])
+            return TOP
         if k == "discr":
             v = self.read_place(store, frame, rv["place"])
             if isinstance(v, Agg) and v.vi is not None:
